@@ -26,6 +26,8 @@ _FUNCS = {
     "__le__": lambda a, b: a <= b,
     "__gt__": lambda a, b: a > b,
     "__ge__": lambda a, b: a >= b,
+    "vm_only_it": lambda a: a * 2 + 1,
+    "vm_only_sql": lambda a: a * 2 + 1,
 }
 
 
